@@ -228,6 +228,9 @@ func checkC08(e *RunEnv) *CheckResult {
 				}
 			}
 			if !long {
+				// flags after the argument, and a flag given twice
+				steps = append(steps, Run("reset", "HEAD@{1}", "--hard").WithTags(unionTags(t, []string{"mode:--hard"})...), Run("reset", "HEAD@{0}", "--soft").WithTags(unionTags(t, []string{"mode:--soft"})...),
+					Run("reset", "--mixed", "--mixed", "HEAD@{1}").WithTags(unionTags(t, []string{"mode:--mixed"})...))
 				for _, m := range malformed {
 					steps = append(steps, Run("reset", "--mixed", m).WithTags(unionTags(t, []string{"arg-malformed"})...))
 				}
